@@ -23,7 +23,8 @@ Seal(kind, named, content, k) ==
   [typ |-> kind, key |-> k, pl |-> pl, sby |-> k, sdom |-> kind, styp |-> kind, spl |-> pl]
 OtherOf(S, x) == CHOOSE y \in S : y # x
 
-Alts == {"none", "payload-content", "payload-named", "key", "sig", "type", "sealed-as-foreign-type"}
+Alts == {"none", "payload-content", "payload-named", "key", "sig", "type", "sealed-as-foreign-type",
+         "named-alias"}     \* made and sealed by the key, naming ANOTHER peer ID that carries the same key (the other multihash form of it)
 Cases == {x \in [made : Kinds, read : Kinds, named : Ids, key : Ids, alt : Alts, via : {"direct", "client", "nested"}] :
             /\ x.via = "client" => (x.alt = "none" /\ x.made = x.read)
             /\ x.via = "nested" => x.alt = "none"}
@@ -32,6 +33,8 @@ Altered(x) ==
   LET e == Seal(x.made, x.named, "c1", x.key) o == OtherOf(Ids, x.key) IN
   CASE x.alt = "none" -> e
     [] x.alt = "payload-content" -> [e EXCEPT !.pl.content = "c2"]
+    (* identities are peer IDs, not keys: the ID the signer's key hashes to is the only one it may name *)
+    [] x.alt = "named-alias" -> Seal(x.made, "alias-of-" \o x.key, "c1", x.key)
     [] x.alt = "payload-named" -> [e EXCEPT !.pl.named = OtherOf(Ids, x.named)]
     [] x.alt = "key" -> [e EXCEPT !.key = o]
     [] x.alt = "sig" -> [e EXCEPT !.sby = o]
